@@ -494,6 +494,19 @@ fn run(e: &Engine) {
                 big.push(Case { channel: true, text: B(format!("@{}2:{}3", "1!".repeat(n), "4!".repeat(n)).into_bytes()) });
             }
         }
+        // path names of every length around 2^8, 2^12, 2^16 and far beyond, in either quote style, alone and
+        // between other entries, with a doubled quote at the very end, at the start and right at the size mark
+        for n in (250usize..=262).chain(1020..=1030).chain(4090..=4100).chain(8190..=8194).chain([32_767, 32_768, 65_534, 65_535, 65_536, 65_537, 70_000, 1_000_000]) {
+            for q in ['\'', '"'] {
+                let name = "n".repeat(n);
+                big.push(Case { channel: true, text: B(format!("@{q}{name}{q}").into_bytes()) });
+                big.push(Case { channel: true, text: B(format!("@1!2,{q}{name}{q},3:4").into_bytes()) });
+                let dq = format!("{q}{q}");
+                big.push(Case { channel: true, text: B(format!("@{q}{}{dq}{q},5", "n".repeat(n - 1)).into_bytes()) });
+                big.push(Case { channel: true, text: B(format!("@{q}{dq}{}{q}", "n".repeat(n - 1)).into_bytes()) });
+                big.push(Case { channel: true, text: B(format!("@{q}{}{dq}tail{q},6", "n".repeat(n.min(4096))).into_bytes()) });
+            }
+        }
         for w in 1..=300usize {
             let z = "0".repeat(w);
             big.push(Case { channel: true, text: B(format!("@{z}7,{z}1!{z}12:-{z}2!+{z}3").into_bytes()) });
